@@ -1440,6 +1440,13 @@ impl ASN1Value {
                 }
                 Ok(())
             }
+            // `object.&field` is not resolved for any governor
+            (
+                ASN1Type::Integer(_) | ASN1Type::Enumerated(_),
+                ASN1Value::ElsewhereDeclaredValue {
+                    parent: Some(_), ..
+                },
+            ) => Err(GrammarError::todo()),
             (ASN1Type::Integer(i), ASN1Value::ElsewhereDeclaredValue { identifier, .. }) => {
                 if let Some(value) = i.distinguished_values.as_ref().and_then(|dist_vals| {
                     dist_vals
